@@ -49,21 +49,6 @@ const (
 	ClassANY = 255
 )
 
-// SigLen is the length of a signature of the algorithm made with a key of keyBits bits (RSA only).
-func SigLen(alg uint8, rsaModulusOctets int) int {
-	switch alg {
-	case RSASHA1, RSASHA256, RSASHA512:
-		return rsaModulusOctets
-	case ECDSAP256SHA256:
-		return 64
-	case ECDSAP384SHA384:
-		return 96
-	case ED25519:
-		return 64
-	}
-	return -1
-}
-
 // ---------------------------------------------------------------------------------------------
 // wire walker
 
